@@ -83,7 +83,8 @@ func Dot(spec *Spec, w io.WriteCloser, fromNode, toNode string) error {
 					doc = doc[0 : period+1]
 				}
 			}
-			label += "<BR/><FONT POINT-SIZE='8'>" + doc + "</FONT>"
+			// The doc is text, not markup ("go on when n > 3").
+			label += "<BR/><FONT POINT-SIZE='8'>" + dotText(doc) + "</FONT>"
 		}
 		fillcolor := "#99ddc8"
 		if n.Branches != nil {
